@@ -323,7 +323,16 @@ fn check_type<T: Jetty>(tname: &str, ctx: &Ctx, shard: usize, nshards: usize, ti
             _ => ("random", rng.sign() * rng.logu(0.05, 8.0)),
         };
         let e0 = e0 as f32 as f64;
-        let x0 = base_for(&mut rng, e0.abs().max(1.0) * 3.0, false, T::IS_F32);
+        let mut x0 = base_for(&mut rng, e0.abs().max(1.0) * 3.0, false, T::IS_F32);
+        // one case in four: the base is exactly a "special" constant (e, 2, 10, 1/2, 1) but still a
+        // variable with its own derivative parts
+        let special_base = rep % 4 == 3;
+        if special_base {
+            let c = *rng.choose(&[std::f64::consts::E, 2.0, 10.0, 0.5, 1.0]);
+            x0 = if T::IS_F32 { c as f32 as f64 } else { c };
+        }
+        let ename = if special_base { format!("{}-special-base", ename) } else { ename.to_string() };
+        let ename = ename.as_str();
         let style = (rep as usize / 6) % STYLES.len();
         let xs = gen_slots(&mut rng, &b, x0, style, T::IS_F32);
         let es = gen_slots(&mut rng, &b, e0, (style + 1) % STYLES.len(), T::IS_F32);
